@@ -70,3 +70,74 @@ Definition chk_C06_swap_mono x y a a' c (out out' : res (N * N * N)) : verdict :
      | _, _ => true
      end)
     false (is_ok out && is_ok out').
+
+(* C01 on the implementation's output; the known class is computed from the inputs *)
+From HT Require Import Amm.Known.
+Definition c01_ok (x y a : N) (out : res (N * N * N)) : bool :=
+  match out with
+  | Ok (n, _, _) => (n * (x + a) <=? y * a) && (n <=? y) && ((y =? 0) || (n <? y))
+  | Err _ => true
+  end.
+Definition chk_C01_compute_swap x y a c out : verdict :=
+  V (agree_compute_swap x y a c out) (c01_ok x y a out) (kf_c01 x y a c) (is_ok out).
+
+(* ------------------------------------------------------------------ *)
+(* C08: Uint256 / Decimal256 operators                                 *)
+(* ------------------------------------------------------------------ *)
+Definition floor_b (r p q : N) : bool := (r * q <=? p) && (p <? (r + 1) * q).
+(* exact-or-abort on the implementation's output *)
+Definition eoa_b (out : res N) (ok : bool) (val : N -> bool) : bool :=
+  match out with
+  | Ok v => ok && val v && (v <? W256)
+  | Err Panic => negb ok
+  | Err _ => false
+  end.
+Definition nres_eqb := res_eqb N.eqb.
+Definition mk (model out : res N) (p : bool) : verdict := V (nres_eqb model out) p false (is_ok out).
+
+Definition chk_C08_u_add a b out := mk (uint_add a b) out (eoa_b out (a + b <? W256) (fun v => v =? a + b)).
+Definition chk_C08_u_addassign := chk_C08_u_add.
+Definition chk_C08_u_sub a b out := mk (uint_sub a b) out (eoa_b out (b <=? a) (fun v => v + b =? a)).
+Definition chk_C08_u_mul a b out := mk (uint_mul a b) out (eoa_b out (a * b <? W256) (fun v => v =? a * b)).
+Definition chk_C08_u_mulratio u n d out :=
+  mk (uint_multiply_ratio u n d) out
+     (eoa_b out (negb (d =? 0) && (u * n <? W256)) (fun v => floor_b v (u * n) d)).
+Definition chk_C08_u_muldec u d out :=
+  mk (uint_mul_dec u d) out (eoa_b out (u * d <? W256) (fun v => floor_b v (u * d) D)).
+Definition chk_C08_d_muluint d u out := chk_C08_u_muldec u d out.
+Definition chk_C08_u_divdec u d out :=
+  mk (uint_div_dec u d) out
+     (eoa_b out (negb (d =? 0) && (u * D <? W256)) (fun v => floor_b v (u * D) d)).
+Definition chk_C08_d_add a b out := mk (dec_add a b) out (eoa_b out (a + b <? W256) (fun v => v =? a + b)).
+Definition chk_C08_d_addassign := chk_C08_d_add.
+Definition chk_C08_d_sub a b out := mk (dec_sub a b) out (eoa_b out (b <=? a) (fun v => v + b =? a)).
+Definition chk_C08_d_mul a b out :=
+  mk (dec_mul a b) out (eoa_b out (a * b <? W256) (fun v => floor_b v (a * b) D)).
+Definition chk_C08_d_div a b out :=
+  mk (dec_div a b) out (eoa_b out (negb (b =? 0) && (a * D <? W256)) (fun v => floor_b v (a * D) b)).
+Definition chk_C08_d_from_ratio n d out :=
+  mk (dec_from_ratio n d) out
+     (eoa_b out (negb (d =? 0) && (n * D <? W256)) (fun v => floor_b v (n * D) d)).
+Definition chk_C08_d_from_uint v out :=
+  mk (dec_from_uint256 v) out (eoa_b out (v * D <? W256) (fun r => r =? v * D)).
+Definition chk_C08_d_percent x out := mk (dec_percent x) out (eoa_b out true (fun r => r * 100 =? x * D)).
+Definition chk_C08_d_permille x out := mk (dec_permille x) out (eoa_b out true (fun r => r * 1000 =? x * D)).
+
+Definition b2n (b : bool) : N := if b then 1 else 0.
+(* comparisons: lt le gt ge eq is_zero *)
+Definition cmp_model (a b : N) : list N :=
+  [b2n (a <? b); b2n (a <=? b); b2n (b <? a); b2n (b <=? a); b2n (a =? b); b2n (a =? 0)].
+Definition chk_C08_cmp a b (out : res (list N)) : verdict :=
+  V (res_eqb nlist_eqb (Ok (cmp_model a b)) out) (res_eqb nlist_eqb (Ok (cmp_model a b)) out) false true.
+Definition chk_C08_u_cmp := chk_C08_cmp.
+Definition chk_C08_d_cmp := chk_C08_cmp.
+
+(* widening: value and limbs [l0,l1,l2,l3]; narrowing *)
+Definition chk_C08_u_from_u128 a (out : res (list N)) : verdict :=
+  let '(l0, l1, l2, l3) := uint_from_u128 a in
+  V (res_eqb nlist_eqb (Ok [limbs_value (uint_from_u128 a); l0; l1; l2; l3]) out)
+    (match out with Ok (v :: _) => v =? a | _ => false end) false true.
+Definition chk_C08_u_from_uint128 := chk_C08_u_from_u128.
+Definition chk_C08_u_from_u64 := chk_C08_u_from_u128.
+Definition chk_C08_u_to_u128 n out := mk (uint_to_u128 n) out (eoa_b out (n <? W128) (fun v => v =? n)).
+Definition chk_C08_u_to_uint128 := chk_C08_u_to_u128.
